@@ -9,6 +9,7 @@
 package stopx
 
 import (
+	"context"
 	"sort"
 	"strconv"
 	"strings"
@@ -49,6 +50,8 @@ type World struct {
 	auto bool
 	// commits can no longer be held
 	noHold bool
+	// the fake connector plugins answer ctx.Err() to a Stop / Teardown made with a cancelled context
+	strictCtx bool
 
 	srcs map[string]*srcState
 	dsts map[string]*dstState
@@ -59,6 +62,15 @@ type World struct {
 
 func NewWorld() *World {
 	return &World{srcs: map[string]*srcState{}, dsts: map[string]*dstState{}}
+}
+
+// ctxErr is what a plugin call made with ctx answers once its work is done: nil, or - for plugins that
+// honour the context like the built-in sandbox and gRPC transports do (Topo.StrictCtx) - ctx.Err().
+func (w *World) ctxErr(ctx context.Context) error {
+	if w.strictCtx && ctx != nil {
+		return ctx.Err()
+	}
+	return nil
 }
 
 func (w *World) Log(e Ev) int {
